@@ -145,7 +145,7 @@ int main(int argc, char ** argv)
 		for(const Op & op : script) {
 			if(op.k != "p" || op.a < 0 || op.a > 8 || op.b < 0 || op.b > 2) { std::fprintf(stderr, "bad probe %s %d %d\n", op.k.c_str(), op.a, op.b); return 2; }
 		}
-		armWatchdog(20);
+		armWatchdog(60);
 		const Id ids[3] = { makeId(script[0].a, script[0].b), makeId(script[1].a, script[1].b), makeId(script[2].a, script[2].b) };
 		for(int i = 0; i < 3; ++i) std::fprintf(g_out, "{\"e\":\"id\",\"o\":%d,\"a\":%d,\"b\":%d}\n", i + 1, script[i].a, script[i].b);
 		for(int i = 0; i < 3; ++i) for(int j = 0; j < 3; ++j) {
